@@ -566,7 +566,7 @@ def run(ctx):
     def small_run(tag, constants, invariants, want):
         for attempt in (1, 2):
             c2 = tlc.write_cfg(os.path.join(ctx.work, 'codec_%s.cfg' % tag), constants=constants, invariants=invariants)
-            r2 = tlc.run('MCCodec', c2, ctx.work, workers=2, timeout=600, heap='2g', outname='codec_%s.out' % tag)
+            r2 = tlc.run('MCCodec', c2, ctx.work, workers=2, timeout=600, heap='2g', outname='codec_%s.out' % tag, only=want)
             if r2['violated'] == want:
                 return
             if not (r2['machinery_error'] or r2['timed_out']):
